@@ -488,7 +488,9 @@ func (x *ctx) runJob(j job, root string) {
 
 	// ---- wallet with its own (non-default) scrypt parameters, a persisted field of the file
 	if j.scrypt == "low" {
-		wd := cli2.GetWalletData()
+		// what `account export --low-security` does: convert a Clone of the wallet data, save it
+		// elsewhere; the wallet it was cloned from must not be affected
+		wd := cli2.GetWalletData().Clone()
 		pwds := make([][]byte, len(ms))
 		for i, m := range ms {
 			pwds[i] = m.pwd
@@ -510,6 +512,23 @@ func (x *ctx) runJob(j job, root string) {
 		for _, m := range ms {
 			r.Distinct("low-existing", m.c.String(), m.pclass)
 			x.checkAccount(cli5, m, "low-security-reencrypted", rng, 2)
+		}
+		// the original wallet after the export: in memory, and after its next save + reload
+		for _, m := range ms {
+			x.checkAccount(cli2, m, "original-in-memory-after-export", rng, 1)
+		}
+		relabeled := *ms[0]
+		relabeled.label = fmt.Sprintf("after-export-%d", j.id)
+		if err := cli2.SetLabel(relabeled.addr, relabeled.label); err != nil {
+			x.vio("setlabel-failed-after-export", err.Error(), nil)
+		} else if cli7, err := account.Open(path); err != nil {
+			x.vio("saved-wallet-unreadable", fmt.Sprintf("job %d (original after export): %v", j.id, err), nil)
+		} else {
+			x.checkAccount(cli7, &relabeled, "original-reloaded-after-export", rng, 1)
+			for _, m := range ms[1:] {
+				x.checkAccount(cli7, m, "original-reloaded-after-export", rng, 1)
+			}
+			r.Count("original_wallet_checked_after_export", 1)
 		}
 		// create a new account inside this wallet, save (NewAccount saves), reopen, decrypt
 		cs := j.cases[rng.Intn(len(j.cases))]
@@ -628,6 +647,8 @@ func TestC43(t *testing.T) {
 	close(fch)
 	wg.Wait()
 	r.Set("fault_wallets", nFault)
+	r.Require("original_wallet_checked_after_export", len(jobs)/8)
+	r.Require("export_other_security_cycles", 1)
 	r.Set("part2_wall_s", time.Since(t1).Seconds())
 	r.Require("password_change_roundtrips", nFault*3/4)
 	r.Require("fault_then_save_then_reload", nFault*5)
